@@ -608,7 +608,7 @@ AREA_MODES = (("unbounded container, bounded operand", -5.0, 3.0), ("large bound
 def r03_2b(ctx):
     out = Outcome("R03.2b", "composite containment is *exactly* the quantified subset claim: on every truth assignment of "
                             "the nested subset facts the answer is all(...) / any(...), with adversarial boxes and areas",
-                  floor=4)
+                  floor=5)
     out.exhaustive = True
 
     def isinstance_hook(rn, ev, call, name, recv, args, kwargs):
@@ -664,6 +664,40 @@ def r03_2b(ctx):
                     detail=f"{len(wrong)} of 24 cells wrong, e.g. facts {wrong[0][0]} -> {wrong[0][1]!r} ({wrong[0][2]})")
         else:
             out.ok(q, f"{label} 24 cells (8 fact assignments x 3 area regimes): result == {word}({claim})", where=fn.where())
+    # a ConnectedShape asked about another ConnectedShape (an intersection T0 & T1 & T2): O <= S_i is tabulated, and so
+    # are the facts T_j <= S_i an implementation may look at instead -- true for one T_j exactly when O <= S_i is true
+    # (that T_j being the same member for every S_i, or a different one each time), false for all T_j otherwise
+    fn = ctx.fn("shape.ConnectedShape._contains_shape")
+    wrong, und = [], None
+    for answers, witness in itertools.product(itertools.product((True, False), repeat=3), ("same", "rotating", "last")):
+        facts = {}
+        for i, a in enumerate(answers):
+            facts[("O", f"s{i}")] = a
+            facts[(f"s{i}", "O")] = not a
+            w = {"same": 1, "rotating": (i + 1) % 3, "last": 2}[witness]
+            for j in range(3):
+                facts[(f"t{j}", f"s{i}")] = a and j == w
+                facts[(f"s{i}", f"t{j}")] = False
+        subs = [Reg(f"s{i}", facts, area=-5.0) for i in range(3)]
+        tsubs = [Reg(f"t{j}", facts, area=-2.0) for j in range(3)]
+        S = Reg("S", facts, kind="ConnectedShape", subshapes=subs, area=-15.0)
+        O = Reg("O", facts, kind="ConnectedShape", subshapes=tsubs, area=-6.0)
+        try:
+            got = Runner(ctx, set(), isinstance_hook).call_fn(fn, [S, O])
+        except Undecided as ex:
+            und = str(ex)
+            break
+        if got is not all(answers):
+            wrong.append((answers, witness, got))
+    label = "[other is a ConnectedShape]"
+    if und:
+        out.undecided(fn.qname, f"{label} not interpretable: {und}", where=fn.where())
+    elif wrong:
+        out.bad(fn.qname, f"{label} containment is not all(other <= sub over the subshapes)", where=fn.where(),
+                detail=f"{len(wrong)} of 24 cells wrong, e.g. facts {wrong[0][0]} with the {wrong[0][1]} member of the other "
+                       f"shape inside each subshape that holds it -> {wrong[0][2]!r}")
+    else:
+        out.ok(fn.qname, f"{label} 24 cells (8 fact assignments x 3 witness patterns): result == all(other <= sub)", where=fn.where())
     return out
 
 
